@@ -90,7 +90,7 @@ func TestMC(t *testing.T) {
 		n     int
 		frags int
 	}
-	scs := []scen{{"2-connections", 2, 2}, {"3-connections", 3, 1}, {"3-connections-fragmented", 3, 2}}
+	scs := []scen{{"2-connections", 2, 2}, {"3-connections", 3, 1}, {"3-connections-fragmented", 3, 2}, {"3-connections-one-truncated", 3, 3}}
 	if ev.Thorough() {
 		scs = append(scs, scen{"4-connections", 4, 1})
 	}
@@ -120,7 +120,9 @@ func TestMC(t *testing.T) {
 				req := &Request{fmt.Sprintf("user%d", i), fmt.Sprintf("pw%d", i), fmt.Sprintf("svc%d", i), ""}
 				data, _ := req.Marshal()
 				c := &mcConn{id: i}
-				if sc.frags == 2 {
+				if sc.frags == 3 && i == 1 {
+					c.in = [][]byte{data[:5]} // connection 1 abandons its request half-way
+				} else if sc.frags >= 2 {
 					c.in = [][]byte{data[:5], data[5:]}
 				} else {
 					c.in = [][]byte{data}
@@ -160,6 +162,17 @@ func TestMC(t *testing.T) {
 			}
 			for _, c := range mw.conns {
 				var r Response
+				truncated := sc.frags == 3 && c.id == 1
+				if truncated {
+					// the abandoned request: a negative reply, no callback, closed once
+					if err := r.Unmarshal(append([]byte{}, c.out...)); err != nil || r.Result {
+						v = append(v, mc.Viol{Key: "abandoned-request-not-refused", Desc: fmt.Sprintf("connection %d sent a truncated request and received %x (err %v)", c.id, c.out, err)})
+					}
+					if c.closed != 1 {
+						v = append(v, mc.Viol{Key: "connection-close-discipline", Desc: fmt.Sprintf("connection %d closed %d times", c.id, c.closed)})
+					}
+					continue
+				}
 				if err := r.Unmarshal(append([]byte{}, c.out...)); err != nil {
 					v = append(v, mc.Viol{Key: "connection-reply-undecodable", Desc: fmt.Sprintf("connection %d received %x: %v", c.id, c.out, err)})
 					continue
@@ -177,7 +190,11 @@ func TestMC(t *testing.T) {
 					v = append(v, mc.Viol{Key: "callback-count", Desc: fmt.Sprintf("callback called %d times with the fields of connection %d (all calls: %v)", mw.calls[key], c.id, mw.calls)})
 				}
 			}
-			if len(mw.calls) != len(mw.conns) {
+			wantCalls := len(mw.conns)
+			if sc.frags == 3 {
+				wantCalls--
+			}
+			if len(mw.calls) != wantCalls {
 				v = append(v, mc.Viol{Key: "callback-with-mixed-fields", Desc: fmt.Sprintf("callback argument tuples seen: %v", mw.calls)})
 			}
 			return v
